@@ -50,7 +50,26 @@ def make_works(sb, variant):
         work.label = f'{path} safe={safe}'
         return work
 
+    def prebuilt(path, safe):
+        """the Builder object is CREATED here (by the thread that prepares the works) and only used - sources added, built - by the worker thread,
+        which never constructs a Builder itself"""
+        b = Builder()
+
+        def work():
+            b.add_source(os.path.join(d, path), safe=safe)
+            root = b.build()
+            out = describe(root)
+            try:
+                out.append(('evaluated', repr(Config(root))))
+            except Exception as e:
+                out.append(('evaluation error', type(e).__name__))
+            return out
+        work.label = f'{path} safe={safe} (builder created by the preparing thread)'
+        return work
+
     table = {
+        'pre-ab': [prebuilt('a/main.yaml', True), prebuilt('b/main.yaml', False)],
+        'pre-cb': [prebuilt('c/top.yaml', False), build('b/main.yaml', True)],
         'ab': [build('a/main.yaml', True), build('b/main.yaml', False)],
         'ba': [build('b/main.yaml', True), build('a/main.yaml', False)],
         'bc': [build('b/main.yaml', False), build('c/top.yaml', True)],
@@ -63,7 +82,7 @@ def make_works(sb, variant):
     return table[variant]
 
 
-VARIANTS = ['ab', 'ba', 'bc', 'a-broken', 'missing-b', 'clash-c', 'abc', 'errors2']
+VARIANTS = ['ab', 'ba', 'bc', 'a-broken', 'missing-b', 'clash-c', 'abc', 'errors2', 'pre-ab', 'pre-cb']
 
 
 def outcome(res):
